@@ -454,12 +454,20 @@ Definition rform_of (class type : N) : rform :=
   else if (type =? 33) && (class =? 1) then FFixed [KU16; KU16; KU16; KName]
   else FNone.
 
-(* RFC 1035 §3.4.2 <BIT MAP>: one bit per port, as many octets as the highest port needs.  NOTE the order of
-   the bits inside an octet follows the implementation (port 8k+b is bit 2^b; the RFC counts from the most
-   significant bit — finding 3 of docs/C23.md). *)
+(* RFC 1035 §3.4.2 <BIT MAP>: one bit per port, as many octets as the highest port needs.  Bits are numbered
+   as everywhere in the RFC (§2.3.2: the bit labelled 0 is the most significant one): port 8k+b is the bit
+   0x80 >> b of octet k, e.g. port 25 is 0x40 of the fourth octet.  The implementation numbers them from the
+   least significant bit (known finding C23-1); [BitOrder] lets the theorems be stated for both. *)
+Class BitOrder := wks_mask : N -> N.                          (* the mask of the port that is b modulo 8 *)
+Definition rfc_order : BitOrder := fun b => 2 ^ (7 - b).
+Definition impl_order : BitOrder := fun b => 2 ^ b.           (* src/rr/rdata/std13.rs serialize_in_wks as it is *)
+
 Definition ports_of (fs : list fval) : list N := flat_map (fun f => match f with VPort p => [p] | _ => [] end) fs.
+Section Order.
+Context {bo : BitOrder}.
+
 Definition wks_octet (ports : list N) (i : N) : N :=
-  fold_left N.lor (map (fun p => if p / 8 =? i then 2 ^ (p mod 8) else 0) ports) 0.
+  fold_left N.lor (map (fun p => if p / 8 =? i then wks_mask (p mod 8) else 0) ports) 0.
 Definition wks_len (ports : list N) : nat :=
   match ports with [] => O | _ => S (N.to_nat (fold_right N.max 0 ports / 8)) end.
 Definition wks_bitmap (ports : list N) : bytes := map (fun i => wks_octet ports (N.of_nat i)) (seq 0 (wks_len ports)).
@@ -514,6 +522,13 @@ Definition rdata_fits (class type : N) (d : ardata) : bool :=
 Inductive dchoice :=
 | DFields (cs : list (sep * fchoice))
 | DGeneric (s0 : sep) (s1 : sep) (ic : ichoice) (ws : list (option sep * bool * bool)).
+
+(* the class of known finding C23-1: a WKS record written in its own syntax that lists at least one port *)
+Definition wks_listed (dc : dchoice) (d : ardata) : bool :=
+  match dc, d with
+  | DFields _, AFields fs => match ports_of fs with [] => false | _ => true end
+  | _, _ => false
+  end.
 
 Fixpoint render_fields (cs : list (sep * fchoice)) (fs : list fval) : bytes :=
   match fs with
@@ -820,3 +835,10 @@ Fixpoint denote (x : sctx) (line : N) (ls : list aline) : list (N * aitem) :=
 
 Definition render (ls : list aline) : bytes := render_file ls.
 Definition number_lines (ls : list aline) : list (N * aitem) := denote sctx0 1 ls.
+
+End Order.
+
+Definition line_wks_listed (l : aline) : bool :=
+  match l with LRecord rc r => wks_listed (rc_rdata rc) (a_rdata r) | _ => false end.
+(* no WKS record of the file lists ports in the WKS syntax (the \# form and an empty port list are fine) *)
+Definition wks_free (ls : list aline) : bool := forallb (fun l => negb (line_wks_listed l)) ls.
